@@ -86,7 +86,7 @@ def calls_for(F, tf_keys=()):
     return tf + [('read_inline', [0]), ('read_inline', [ni - 1]), ('read_crossline', [nx - 1]), ('read_zslice', [nz - 1]), ('read_zslice', [0]),
             ('read_volume', []), ('read_subvolume', [0, 2, 0, 2, 0, 5]), ('get_trace', [0, N, N]), ('get_trace', [tc - 1, N, N]),
             ('read_correlated_diagonal', [0, N, N, N, N]), ('gen_trace_header', [0]), ('gen_trace_header', [tc - 1]),
-            ('tracefield', []), ('meta', [])] + holes
+            ('tracefield', []), ('meta', []), ('tools_cube', [])] + holes
 
 
 def meta_of(r):
@@ -105,10 +105,20 @@ def outcome(data, op, a, preload=False, reader=None):
     tmp = None
     if reader is not None:
         return _call(reader, op, a)
-    if op in ('variant_headers', 'gen_trace_header'):         # a path on disk: the reader's local-file code, not a file-like object
+    if op in ('variant_headers', 'gen_trace_header', 'tools_cube'):         # a path on disk: the reader's local-file code, not a file-like object
         tmp = os.path.join(env.subdir(f'c18p-{os.getpid()}'), 'partial.sgz')
         with open(tmp, 'wb') as f:
             f.write(data)
+    if op == 'tools_cube':      # the module-level convenience function (opens, reads everything, closes)
+        import seismic_zfp.tools
+        try:
+            with env.quiet():
+                v = seismic_zfp.tools.cube(tmp)
+            return ('value', codec.bits(np.asarray(v, dtype=np.float32)).tolist())
+        except BaseException as e:
+            if isinstance(e, (KeyboardInterrupt, SystemExit, MemoryError)):
+                raise
+            return ('raise', type(e).__name__)
     try:
         with env.quiet():
             r = SgzReader(tmp if tmp else CountingFile(data, name='partial.sgz'), preload=preload)
@@ -169,7 +179,7 @@ def _sweep_worker(item):
     out = []
     for sweep in (1, 2):
         for ci, (op, a) in enumerate(S['calls']):
-            if op in ('variant_headers', 'meta', 'tracefield'):
+            if op in ('variant_headers', 'meta', 'tracefield', 'tools_cube'):
                 continue
             got = _call(r, op, a)
             out.append((sweep, ci, got))
@@ -433,7 +443,7 @@ def replay(run, rep):
             got = None
             for sweep in (1, 2):
                 for op, a in calls:
-                    if op in ('variant_headers', 'meta', 'tracefield'):
+                    if op in ('variant_headers', 'meta', 'tracefield', 'tools_cube'):
                         continue
                     g = _call(r, op, a)
                     hit = op == case['op'] and list(a) == list(case['args'])
